@@ -10,6 +10,7 @@ import (
 	"os"
 	"path/filepath"
 	"sort"
+	"strconv"
 	"strings"
 
 	"golang.org/x/tools/go/packages"
@@ -21,6 +22,7 @@ type Pkg struct {
 	cfSource    string
 	importAlias map[string]string
 	decls       map[*types.Func]*ast.FuncDecl
+	globalInit  map[*types.Var]ast.Expr
 }
 
 type Engine struct {
@@ -218,14 +220,41 @@ func (fc *FnCtx) prepare() {
 // verifyFunction generates all obligations of one function under contract.
 func (eng *Engine) verifyFunction(p *Pkg, key string, ct *Contract) (res *FuncResult) {
 	res = &FuncResult{Key: p.Types.Name() + "." + key, Pkg: p.PkgPath}
-	f, decl := p.findFunc(key)
-	if f == nil || decl == nil || decl.Body == nil {
+	var f *types.Func
+	var decl *ast.FuncDecl
+	var sig *types.Signature
+	isClosure := false
+	if i := strings.LastIndex(key, "$"); i > 0 && !strings.HasPrefix(key, "$") {
+		// closure contract Outer$N: the N-th function literal (source order) inside Outer
+		_, outer := p.findFunc(key[:i])
+		n, _ := strconv.Atoi(key[i+1:])
+		if outer != nil && outer.Body != nil && n > 0 {
+			k := 0
+			ast.Inspect(outer.Body, func(x ast.Node) bool {
+				if lit, ok := x.(*ast.FuncLit); ok {
+					k++
+					if k == n && decl == nil {
+						decl = &ast.FuncDecl{Name: ast.NewIdent(key), Type: lit.Type, Body: lit.Body}
+						sig, _ = p.TypesInfo.TypeOf(lit).(*types.Signature)
+					}
+				}
+				return true
+			})
+		}
+		isClosure = true
+	} else {
+		f, decl = p.findFunc(key)
+		if f != nil {
+			sig = f.Type().(*types.Signature)
+		}
+	}
+	if decl == nil || decl.Body == nil || sig == nil {
 		res.Unsupported = "function " + key + " not found in package " + p.PkgPath + " (contract is stale)"
 		return res
 	}
 	fc := &FnCtx{eng: eng, pkg: p, fn: f, decl: decl, body: decl.Body, ct: ct, key: res.Key, smt: newSMT(),
 		loopOrd: map[ast.Stmt]int{}, boxed: map[types.Object]bool{}, occ: map[string]map[token.Pos]int{}, info: p.TypesInfo,
-		paramsEntry: map[string]Val{}}
+		paramsEntry: map[string]Val{}, isClosure: isClosure}
 	res.SMT = fc.smt
 	defer func() {
 		res.Obls = fc.obls
@@ -247,8 +276,8 @@ func (eng *Engine) verifyFunction(p *Pkg, key string, ct *Contract) (res *FuncRe
 	fc.smt.declare("top0", "(declare-const top0 Int)")
 	st.top = "top0"
 	st.assume("(>= top0 0)")
-	sig := f.Type().(*types.Signature)
 	scope := map[string]Val{}
+	fc.entryScope = scope
 	bind := func(id *ast.Ident) {
 		obj, _ := p.TypesInfo.Defs[id].(*types.Var)
 		if obj == nil || id.Name == "_" {
@@ -281,6 +310,29 @@ func (eng *Engine) verifyFunction(p *Pkg, key string, ct *Contract) (res *FuncRe
 		for _, n := range fl.Names {
 			bind(n)
 		}
+	}
+	if isClosure {
+		// captured variables: arbitrary values fixed at entry
+		seen := map[types.Object]bool{}
+		ast.Inspect(decl.Body, func(x ast.Node) bool {
+			id, ok := x.(*ast.Ident)
+			if !ok {
+				return true
+			}
+			o, ok := p.TypesInfo.Uses[id].(*types.Var)
+			if !ok || seen[o] || o.IsField() || (o.Pkg() != nil && o.Parent() == o.Pkg().Scope()) {
+				return true
+			}
+			if o.Pos() >= decl.Type.Pos() && o.Pos() <= decl.Body.End() {
+				return true
+			}
+			seen[o] = true
+			cv := fc.freshVal(st, "cap_"+o.Name(), o.Type())
+			st.vars[o] = cv
+			scope[o.Name()] = cv
+			fc.paramsEntry[o.Name()] = cv
+			return true
+		})
 	}
 	for j := 0; j < sig.Results().Len(); j++ {
 		fc.results = append(fc.results, sig.Results().At(j))
